@@ -32,7 +32,7 @@ URL: TypeAlias = AnyHttpUrl
 Text: TypeAlias = NonEmptyStr
 Number: TypeAlias = Union[Int, Float]
 
-DateOrDatetime = Union[date, datetime]
+DateOrDatetime = Union[datetime, date]
 TimeOrDatetime = Union[time, datetime]
 
 # ----
